@@ -348,12 +348,21 @@ Definition f19_program : program :=
      lit 3]])].
 Definition keep27 : chain -> bool := keep_by_span (fun off => off =? 27).
 
-Lemma format_then_compile_same_refuted :
-  exists p k, normalize_blocks (normalize_blocks p (formatter_options k)) compiler_options
-              <> normalize_blocks p compiler_options.
-Proof.
-  exists f19_program, keep27. intros Heq. vm_compute in Heq. discriminate Heq.
-Qed.
+(* Historical (pre-repair model, finding F19, fixed by /repo commit e176e48): with the old test
+   `is_tail_call (last body)` the body `1 { 2 ^ }` of the outer block was NOT seen as ending in a tail call, so the
+   formatter spliced the outer block in a non-final position although the compiler keeps it. The repaired test
+   looks through the kept block. *)
+Definition f19_outer_body : chain :=
+  Chain None (Some 16) [lit 1; Block (Expression [Branch (Sequence [Chain None (Some 27) [lit 2; tail]]) None])].
+Example f19_pre_repair_test_missed_it :
+  ends_in_tail_call_pre_repair f19_outer_body = false /\ ends_in_tail_call f19_outer_body = true.
+Proof. split; vm_compute; reflexivity. Qed.
+
+(* on the repaired model the F19 witness satisfies the law *)
+Example f19_repaired :
+  normalize_blocks (normalize_blocks f19_program (formatter_options keep27)) compiler_options
+  = normalize_blocks f19_program compiler_options.
+Proof. vm_compute. reflexivity. Qed.
 
 (* non-vacuity: a program on which both option sets do change something (redundant block stripped, multi-step
    block lifted by the compiler / kept by the formatter, compound consequence grouped by the formatter) *)
